@@ -87,6 +87,34 @@ CHECKS = {
    note='Same trusted base as C02; handler durations are sampled by the jitter of the run, not enumerated.'),
 }
 
+# Extensions of the fifth session (appended to the level texts above; DESIGN.md sections 12.6 and 12.8)
+RDM = (' A redial-enabled session is covered at step level as well: spec/RedialM.tla (reader per connection generation, callers, Close(), the redial round under the session lock; '
+       'TLC exhaustive, 710 889 distinct states in the quick configuration; with one repair switched off TLC must refute the named invariant) and the schedule families of spec/RedialSched.tla '
+       '(the loss-handling goroutine parked at each of 13 action boundaries, callers parked at call.stored / write.refused, calls / Close() / server back / rejecting dial hook issued meanwhile) '
+       'forced on the real code over loopback TCP and judged at quiescence by spec/PRedialM.tla (every call and Close() ends; the session is alive, ended or, after a later call, revived; closed for good after a local Close()).')
+EXTRA = {
+ 'C02': RDM + ' For this property: the 200 sampled families with calls racing a loss, a round or a Close().',
+ 'C07': RDM + ' For this property: 200 sampled families (all 830 in the thorough tier).',
+ 'C08': RDM + ' For this property: the families with a local Close() (150 sampled).',
+ 'C13': RDM + ' For this property: 400 sampled families in the quick tier, all 830 twice in the thorough tier.',
+ 'C06': ' The state of the attacked session is a dimension of its own (idle / a CALL of this side pending / a CALL pending with a graceful Close() parked) over truncations, random bytes, plain EOF, boundary length fields and an unsupported frame type: once the input is exhausted the pending call must have completed and Close() returned (353 cases).',
+ 'C09': ' A second class of placement trees varies how the global plugin lists came into being (slice with spare capacity, a plugin removed by name at either end, two plugins appended at once) with two sibling routes that are both called (27 720 scenarios, 1 500 sampled in the quick tier); a Fatalf of the framework during a legal configuration is an event the trace specification never accepts.',
+ 'C10': ' Class live (320 scenarios, all replayed): unknown handlers and part of the routes installed before / after / replaced after the first session exists, request rounds on the old and on a new session, the current unknown handler per round stated by Router.tla.',
+ 'C11': ' Class alias (60 cases): the decoded value must still equal v after every byte of the input buffer was overwritten; class reuse (140 cases): for codecs whose capability ResetsDest holds (protobuf, plain, thrift; measured on the unchanged tree) decoding into a destination that received a larger value before must yield v (1912 cases in all).',
+ 'C14': ' An observing-plugin profile (write hooks read Status, Output and Swap while replies arrive) and byte-body cells through the unknown-message handlers are among the race programs (43 workload programs); a report that pairs a repository access with a harness read of a value the framework handed over for good (vh.Owned*) counts.',
+ 'C15': ' The alphabet has 20 operations: five whose reply WRITE fails with something other than connection-closed were added (unencodable result; known / unknown route under an expired context age; known / unknown route on a connection whose writes fail): 420 histories in the quick tier.',
+ 'C16': ' Timing class split: the first frame arrives in two pieces (cut inside the size field, inside the header, after the header, after the public part of the credential) and the client watches during the pause: no verdict, hook or handler may precede the complete first frame; neighbour before: a valid credential of the same layout was left in the pooled receive buffer (2640 scenarios).',
+ 'C17': ' A neighbouring plugin before / after the secure plugin or on the serving routes reports success from every read and write hook with nil or with a status object of code 0 (1118 scenarios).',
+ 'C19': ' Dimension earlier: what happened before on the forwarder session (a message under a context deadline that has since passed; a context age switched off) as a pre-step (438 scenarios).',
+ 'C20': ' Previous uses of handler contexts that end not OK on either side (handler error, not found, undecodable argument, failed / unserved push, unsupported frame type) and the view of the write hooks (WriteCtx) of the next call / push are part of the observation; the context pool is drained before the recycled and before the reference run (2466 cases).',
+}
+TECH_EXTRA = {
+ 'C02': '; step-level redial model (RedialM.tla, TLC exhaustive) with hold-point schedule families (RedialSched.tla) validated by TLC against PRedialM.tla',
+ 'C07': '; step-level redial model (RedialM.tla, TLC exhaustive) with hold-point schedule families (RedialSched.tla) validated by TLC against PRedialM.tla',
+ 'C08': '; step-level redial model (RedialM.tla, TLC exhaustive) with hold-point schedule families (RedialSched.tla) validated by TLC against PRedialM.tla',
+ 'C13': '; step-level redial model (RedialM.tla, TLC exhaustive) with hold-point schedule families (RedialSched.tla) validated by TLC against PRedialM.tla',
+}
+
 def main():
     checks = []
     for p in props:
@@ -100,9 +128,9 @@ def main():
             'evidence_file': '/verif/evidence/%s.json' % p,
             'replay_cmd_template': 'bin/vcheck %s --replay {path}' % p,
             'engine': c['engine'],
-            'level_claimed': {'category': c['level'], 'text': c['text'], 'design_ref': 'DESIGN.md section ' + c['design']},
+            'level_claimed': {'category': c['level'], 'text': c['text'] + EXTRA.get(p, ''), 'design_ref': 'DESIGN.md section ' + c['design']},
             'level_note': c['note'],
-            'technique': c['technique'],
+            'technique': c['technique'] + TECH_EXTRA.get(p, ''),
         })
     hooks = subprocess.run(['git', '-C', '/repo', 'log', '--format=%h %s'], stdout=subprocess.PIPE, text=True).stdout.splitlines()
     hook_commits = [l.split()[0] for l in hooks if l.split(' ', 1)[1].startswith('verif hook')]
@@ -126,6 +154,8 @@ def main():
              'kind_free_text': 'programs from Workload.tla / SessionGen.tla / Hub.tla run on a race-detector build; reports filtered to the repository packages'},
             {'name': 'corr', 'path': 'lib/eng_corr.py', 'serves_properties': ['C01'],
              'kind_free_text': 'configuration space from spec/Workload.tla; concurrent tagged workloads (driver corr); TLC trace validation against spec/PCorr.tla'},
+            {'name': 'redialm', 'path': 'lib/checks.py (redialm) + lib/eng_generic.py', 'serves_properties': ['C02', 'C07', 'C08', 'C13'],
+             'kind_free_text': 'TLC model checking of spec/RedialM.tla (step-level redial machinery; as-is configurations must be refuted); schedule families from spec/RedialSched.tla forced with hold points by harness driver redialm over loopback TCP; TLC trace validation against spec/PRedialM.tla'},
             {'name': 'sess', 'path': 'lib/eng_sess.py', 'serves_properties': ['C02', 'C07', 'C08'],
              'kind_free_text': 'TLC model checking of spec/Session.tla; scenario export via spec/SessionGen.tla; strict/free replay by harness driver sess; TLC trace validation against spec/PSession.tla'},
         ],
